@@ -13,7 +13,7 @@ CHECKS = {
         text='Generated messages (shared-suffix name pools that may contain the root name, all record kinds, answers added with add_answer_at_time or through add_answer(incoming_query, record), packets() called twice, remaining-TTL modes, bulk up to 400 entries aimed at '
              'the 1460/8966-byte limits) are built with DNSOutgoing and decoded with DNSIncoming and an independent decoder; '
              'per-section equality with the expectation computed from the case. Exploration only: no absence claim.',
-        note='trusts vlib/wire.py (independent codec) and Hypothesis; names bounded in characters as the property states',
+        note='trusts vlib/wire.py (independent codec) and Hypothesis; names bounded in characters as the property states; in a third of the cases the entry objects went into an earlier message first (other QU bit, reverse order)',
         ref='3/C01'),
     'C14': dict(
         technique='property-based testing (Hypothesis), size-directed generation, invariant oracle over raw datagrams via independent decoder',
@@ -28,19 +28,19 @@ CHECKS.update({
         text='Byte strings from four sources (the compression-graph grammar includes over-long names that are referred to again by pointers) plus an atheris campaign (thorough) go through one oracle: no exception, work within a frozen '
              'line/call budget measured with sys.monitoring, names <= 253 chars when valid, equality with an independent strict RFC 1035 '
              'decoder whenever that accepts. The small-alphabet block is enumerated completely; everything else is exploration.',
-        note='trusts vlib/wire.py strict decoder and the frozen work budget (4x the adversarial maximum observed on the repaired tree)',
+        note='trusts vlib/wire.py strict decoder and the frozen work budget (4x the adversarial maximum observed on the repaired tree); another datagram is decoded between the construction of a message and the first read of its records',
         ref='3/C02'),
     'C19': dict(
         technique='property-based testing (Hypothesis grammar + rule-violation catalogue) against an independent three-valued name grammar; TXT round trip through an independent RFC 6763 parser',
         text='Generated valid/near-valid names in both strict modes are judged by NameSpec (ACCEPT(type)/REJECT/UNSPECIFIED); property '
              'dictionaries are encoded by ServiceInfo and decoded by an independent parser and by the library. Exploration.',
-        note='trusts vlib/models.py NameSpec/txt_parse; UNSPECIFIED regions create no obligation',
+        note='trusts vlib/models.py NameSpec/txt_parse; UNSPECIFIED regions create no obligation; the application edits the .properties dictionaries it was handed; later objects must read back the input',
         ref='3/C19'),
     'C20': dict(
         technique='bounded-exhaustive enumeration of record/question pairs plus property-based random pairs (Hypothesis); oracle = identity computed from construction parameters',
         text='All ordered pairs over a bounded vocabulary (594 records + 27 questions in the quick tier; NSEC type lists in both orders) and random derived pairs; ==, !=, hash, '
              'set/dict membership, DNSRRSet.suppresses and DNSCache.get/async_get_unique must agree with the identity relation.',
-        note='exhaustive only over the stated vocabulary; NSEC next-name case not varied',
+        note='exhaustive only over the stated vocabulary; NSEC next-name case not varied; the caller goes on using the list an NSEC record was made from',
         ref='3/C20'),
 })
 
@@ -74,7 +74,7 @@ CHECKS.update({
         technique='property-based testing of generated response/clock histories in the simulator; invariant oracle over the callback history and the real cache',
         text=SIM + 'browsers receive generated datagram histories (new/refresh/re-cased/goodbye/flush/repeated pointers, datagrams mixing pointer and SRV/TXT/A changes of one instance, clock steps up to hours); '
              'listeners given as listener= objects (also without update_service) or as handlers=[callable] (also with a one-shot handler that unregisters itself); callback alternation, live-set == cached pointer set after every op, and visibility of the triggering records from inside add_service.',
-        note='restrictions of the property are built into the generator; C05 ties the cache itself to the RFC model',
+        note='restrictions of the property are built into the generator; C05 ties the cache itself to the RFC model; the handlers=[...] list may be one object the application reuses and clears',
         ref='3/C04'),
 })
 
@@ -94,7 +94,7 @@ CHECKS.update({
         text=SIM + 'schedules of 1-8 QM queries, peer sightings and truncated trains on a float-exact millisecond grid; every multicast answer must fall in a '
              'window some query justifies (immediate / aggregated 20..500 ms / protected sighting+1 s..query+1.2 s), every requirement must be covered, no '
              'duplicates; trains (whose last packet may be a probe) are assembled once per source after the recorded 400-500 ms hold with the union of known answers; the same query bytes from several hosts less than a second apart: only copies the documented duplicate guard drops may go unhandled.',
-        note='sightings are read from the wire (every response record arriving on one of the host\'s sockets, its own multicasts included, except in a datagram byte-identical to the previous one on that socket within a second - the documented duplicate guard); assembly instants observed by wrapping handle_assembled_query from the harness; a truncated train counts as arriving when it is assembled (windows anchored there)',
+        note='sightings are read from the wire (every response record arriving on one of the host\'s sockets, its own multicasts included, except in a datagram byte-identical to the previous one on that socket within a second - the documented duplicate guard); assembly instants observed by wrapping handle_assembled_query from the harness; a truncated train counts as arriving when it is assembled (windows anchored there); QU questions are don\'t-cares; directed scenario in which the host\'s cached copy of its own record expires between two bursts of queries',
         ref='3/C12'),
 })
 
@@ -103,7 +103,7 @@ CHECKS.update({
         technique='property-based testing of generated query/withdrawal interleavings in the simulator; invariant oracle over the independently decoded trace and a peer browser',
         text=SIM + 'queries placed on a grid around async_unregister_service / async_close (answers immediate, aggregated, TC-held or in the 1 s protection queue); '
              'exactly three complete TTL-0 goodbyes 125 ms apart, and afterwards no datagram carries a withdrawn record with TTL > 0; a peer browser on a second host must not re-add.',
-        note='5 s observation window after the withdrawal; registries built by register or reached through updates; in a quarter of the unregister cases the service is still announcing',
+        note='5 s observation window after the withdrawal; registries built by register or reached through updates; in a quarter of the unregister cases the service is still announcing; or still probing (its registration call has not returned) when it is unregistered',
         ref='3/C08'),
 })
 
@@ -132,7 +132,7 @@ CHECKS.update({
         text=SIM + 'browsers, lookups and registered services share one instance whose cache holds 0-400 pointers aged around half TTL; every emitted query '
              '(TC chains assembled, independent decoder) must list exactly the non-stale matching records with floor(remaining TTL); scheduled asking instants '
              'are replayed against HistoryModel (own questions per question, heard answerable questions with the whole answer section): QM emitted iff not suppressed, QU always, progression and lookup spacing.',
-        note='heard queries are observed at handle_assembled_query (harness-side wrapper); decisions within the clock drift of a boundary are ties; open finding F14 excluded by construction',
+        note='heard queries are observed at handle_assembled_query (harness-side wrapper); decisions within the clock drift of a boundary are ties; open finding F14 excluded by construction; a lookup may re-use the ServiceInfo object of an attempt that timed out or was cancelled',
         ref='3/C13'),
 })
 
@@ -152,7 +152,7 @@ CHECKS.update({
         text=SIM + 'owner chains X, X-2, X-3, pre-populated or empty caches, 0-150 ms one-way delays, conflicting pointers injected on a grid around the three probe instants (also as the refresh of a pointer that just expired in the newcomer\'s cache); '
              'probe format and 175 ms spacing, announcements only after the third probe (3 x 225 ms, complete, configured TTLs, flush bits), conflicts learned before the '
              'third probe rejected and never announced, no spurious conflicts or skipped suffixes, no duplicate names.',
-        note='t_learn is the newcomer\'s own perception via a spy listener; a conflict within 2 ms of the third probe instant is a tie',
+        note='t_learn is the newcomer\'s own perception via a spy listener; a conflict within 2 ms of the third probe instant is a tie; the same ServiceInfo object may have been registered before, also under another name',
         ref='3/C09'),
 })
 
@@ -170,7 +170,7 @@ CHECKS.update({
         technique='stream fuzzing with structure-aware generators (Hypothesis: mutations, compression-graph grammar, hostile-but-parsable names) against a running instance in the simulator; invariant + canary oracle',
         text=SIM + 'streams of 1-25 (thorough 40) datagrams incl. 20 % oversized and announcements that repeat a record inside one datagram, gaps from 0 ms to 77 min, from mDNS and legacy ports, IPv4/IPv6, on every socket of a victim that has registered services, '
              'a browser and a lookup in progress (the application may start more lookups and cancel them as datagrams arrive); no exception may reach the loop, oversized datagrams leave no trace, and canary query/announcement traffic still works afterwards (incl. a poller and a peer that repeat one datagram every 400-999 ms: copies a second or more after the last handled one are handled).',
-        note='reuses C02\'s generators; an atheris corpus is not wired into this check (the grammar reaches the states fuzzing did not)',
+        note='reuses C02\'s generators; an atheris corpus is not wired into this check (the grammar reaches the states fuzzing did not); directed streams: cut announcement, type enumeration, TC bursts, same-name-other-length label twins; canary phase with a poller and a repeating peer',
         ref='3/C15'),
 })
 
